@@ -1,6 +1,6 @@
 (* C10 — property theorems.  Only statements, [exact lemma] and Print Assumptions. *)
 From Coq Require Import ZArith List.
-From FV Require Import Lib.RustInt C10.Model C10.Proofs C10.PointProofs C10.IupProofs.
+From FV Require Import Lib.RustInt C10.Model C10.Proofs C10.PointProofs C10.IupProofs C10.IupUnforced.
 Import ListNotations.
 Open Scope Z_scope.
 
@@ -76,6 +76,27 @@ Theorem iup_sound_forced_branch : forall me ci_rot ci_dbl n mask,
          /\ forall q, from < Z.of_nat q < Z.of_nat to -> ~ retained (unrot n mid q).
 Proof. exact iup_sound_forced. Qed.
 
+(* ---- IUP optimiser, no-forced-point branch (contour solved twice in a row, best rotation), for EVERY kernel:
+   there is a window (start - n, start] of the doubled index space whose residues mod n are the contour; the point
+   start mod n is retained; every point p of the window whose residue is marked optional lies strictly between
+   [from] (>= start - n, the same point as start) and [to] (<= start), both retained, none retained in between,
+   with the kernel's consent on the doubled contour ---- *)
+Theorem iup_sound_unforced_branch : forall me ci_rot ci_dbl n mask, (2 <= n)%nat ->
+  filter me (seq 0 n) = [] ->
+  contour_mask me ci_rot ci_dbl n = Some mask ->
+  let retained := fun p => nth p mask false = true in
+  exists start : nat, (n - 1 <= start <= 2 * n - 2)%nat /\
+    retained (start mod n)%nat /\
+    forall p : nat, Z.of_nat start - Z.of_nat n < Z.of_nat p <= Z.of_nat start ->
+      retained (p mod n)%nat \/
+      exists (from : Z) (to : nat),
+        ci_dbl from to = true
+        /\ Z.of_nat start - Z.of_nat n <= from /\ from < Z.of_nat p < Z.of_nat to /\ (to <= start)%nat
+        /\ retained (to mod n)%nat
+        /\ retained (Z.to_nat (from mod Z.of_nat n))
+        /\ forall q : nat, from < Z.of_nat q < Z.of_nat to -> ~ retained (q mod n)%nat.
+Proof. exact iup_sound_unforced. Qed.
+
 (* both branches: the mask has the contour's length *)
 Theorem iup_mask_length : forall me ci_rot ci_dbl n mask,
   contour_mask me ci_rot ci_dbl n = Some mask -> length mask = n.
@@ -106,6 +127,7 @@ Print Assumptions point_run_lengths_legal.
 Print Assumptions packed_size_computed.
 Print Assumptions packed_points_size_computed.
 Print Assumptions iup_sound_forced_branch.
+Print Assumptions iup_sound_unforced_branch.
 Print Assumptions iup_mask_length.
 Print Assumptions iup_contour_output_shape.
 Print Assumptions iup_rotation_bijective.
